@@ -779,7 +779,7 @@ def _alignment(prog, rep):
         cc = [c for c in calls(eo.node) if (dotted(c.func) or "").endswith("extract_all_linear_coefficients") and len(c.args) >= 2]
         rets = [r.value for r in walk_local(eo.node) if isinstance(r, ast.Return) and isinstance(r.value, ast.Tuple)]
         ok = bool(cc) and all(src(c.args[0]).endswith(".objective") and _index_map_over(prog, eo, c.args[1], vn) for c in cc) and bool(rets) and all(src(r.elts[-1]) == vn for r in rets)
-    rep.ob("R05.5", "extract_objective", ok, "columns = positions in problem.variables; the same list is returned" if ok else "the cost vector's column map is not {v.name: i} over problem.variables, or another list is returned", loc=eo.loc, detail="columns") if (ok or len(vnames) == 1) else rep.undecided("extract_objective: the local holding problem.variables not found")
+    rep.ob("R05.5", "extract_objective", ok, "columns = positions in problem.variables; the same list is returned" if ok else "the cost vector's column map is not {v.name: i} over problem.variables, or another list is returned", loc=eo.loc, detail="columns", robust=False) if (ok or len(vnames) == 1) else rep.undecided("extract_objective: the local holding problem.variables not found")
     ec = L.methods.get("extract_constraints")
     vparam = [x.arg for x in ec.node.args.args][-1]
     cc = [c for c in calls(ec.node) if (dotted(c.func) or "").endswith("extract_all_linear_coefficients") and len(c.args) >= 3]
@@ -789,7 +789,7 @@ def _alignment(prog, rep):
     else:
         okm = all(_index_map_over(prog, ec, c.args[1], vparam) for c in cc)
         okn = all(src(c.args[2]) == f"len({vparam})" or (isinstance(c.args[2], ast.Name) and [src(v) for v in na.get(c.args[2].id, []) if isinstance(v, ast.AST)] == [f"len({vparam})"]) for c in cc)
-        rep.ob("R05.5", "extract_constraints", okm and okn, "rows use the column map (and the length) of the list passed in" if okm and okn else "constraint rows are not built over the variable list passed in", loc=ec.loc, detail="columns")
+        rep.ob("R05.5", "extract_constraints", okm and okn, "rows use the column map (and the length) of the list passed in" if okm and okn else "constraint rows are not built over the variable list passed in", loc=ec.loc, detail="columns", robust=False)
     eb = L.methods.get("extract_bounds")
     bparam = [x.arg for x in eb.node.args.args][-1]
     # bounds[i] = (lb, ub) of variables[i]: a loop / comprehension over the parameter appending a pair per variable
